@@ -52,8 +52,8 @@ MANIFEST = dict(
          "differential + ground truth); k-merald re-alignment and CRAM are not modelled; the model describes the "
          "code with fixes F12-F16 applied (each defect also modelled as-is, selectable, with a Lean witness). Deepened: "
          "edit_distance_affine_gap (three-table Gotoh DP + prefix/suffix shortcut) is modelled and proved to compute the minimum "
-         "cost over all enumerated alignments (the shortcut: cost 0 iff equal, proved; equality with the minimum for "
-         "gap_extend <= gap_start by differential test against two brute-force yard-sticks), the affine branch of realign gives "
+         "cost over all enumerated alignments — the DP for all costs, the whole function with its shortcut for "
+         "gap_extend <= gap_start (also tested against two brute-force yard-sticks) —, the affine branch of realign gives "
          "the carried allele for error-free reads over isolated variants; ReadSetReader.read as a whole (fetch, sample "
          "selection, regions, _usable_alignments, variant pointer, missing SEQ/CIGAR/RG, grouping, create_read_from_group) is "
          "modelled: a primary alignment with mapq >= threshold is never filtered, the filter is an order-preserving, "
